@@ -36,7 +36,7 @@ class C20(Prop):
     id = 'C20'
     struct_inputs = False          # explanations are keyed by variable name
     reparse_histories = False      # explain() also reports on the assertions of earlier parse() calls on the object
-    rule_added = '20% of the cases put a temporal operator behind two Boolean filters under a range context (it must explain several disjoint intervals). 12%: a named sub-specification referenced from several places of one assertion (modular specification). 6%: rise/fall over a compound operand behind a window that starts at b >= 1.'
+    rule_added = 'In every run 8 (thorough: 320) long traces of 130..400 samples on which a variable occurring 2-3 times toggles around its thresholds (hundreds of separate intervals per occurrence). 20% of the cases put a temporal operator behind two Boolean filters under a range context (it must explain several disjoint intervals). 12%: a named sub-specification referenced from several places of one assertion (modular specification). 6%: rise/fall over a compound operand behind a window that starts at b >= 1.'
     rule = ('random formulas of the fragment the explainer supports (no since/until; arithmetic, predicates, Boolean, '
             'rise/fall, prev/next, bounded and unbounded once/historically/eventually/always; depth<=4; variables '
             'occurring several times) x traces of 2..6 samples on StlDiscreteTimeOfflineSpecification: evaluate(); if '
@@ -233,6 +233,35 @@ class C20(Prop):
                 data['y'] = ys
         return {'formula': f, 'data': data}
 
+    def gen_long(self, rng):
+        """Long traces (130..400 samples) on which a variable that occurs two or three times toggles around the
+        thresholds, so that the explanation of one occurrence consists of very many separate intervals before the
+        next occurrence is explained (what a size-triggered compaction of the collected intervals would meet)."""
+        n = rng.choice([130, 160, 200, 260, 400])
+        a, b = lang.V('x'), lang.V('y')
+        hi, lo = rng.choice([10.0, 3.0, 5.0]), rng.choice([0.0, -1.0, 1.0])
+        pa1 = lang.N(rng.choice(['geq', 'gt']), a, lang.C(lo))
+        pa2 = lang.N(rng.choice(['leq', 'lt']), a, lang.C(hi))
+        pb = lang.N(rng.choice(['geq', 'leq']), b, lang.C(0.0))
+        parts = [pa1, pb, pa2] if rng.random() < 0.6 else [pa1, pa2, lang.N('not', pa1)][:rng.choice([2, 3])] + [pb]
+        if rng.random() < 0.4:
+            rng.shuffle(parts)
+        body = parts[0]
+        for q in parts[1:]:
+            body = lang.N('and', body, q)
+        r = rng.random()
+        if r < 0.5:
+            f = lang.N('eventually', body)
+        elif r < 0.75:
+            f = lang.N('eventually', body, ivl=(0, n - rng.randint(1, 5)))
+        else:
+            f = lang.N('not', lang.N('always', lang.N('not', body)))
+        below, above, inside = lo - rng.choice([1.0, 2.0]), hi + rng.choice([1.0, 10.0]), (lo + hi) / 2.0
+        ph = rng.randint(0, 1)
+        xs = [(below if (i + ph) % 2 == 0 else above) if rng.random() < 0.97 else rng.choice([below, above]) for i in range(n)]
+        ys = [rng.choice([1.0, 2.0, -1.0, 0.5]) for _ in range(n)]
+        return {'formula': f, 'data': {'x': xs, 'y': ys}, 'long': True}
+
     def gen(self, rng, ctx):
         r = rng.random()
         if r < 0.06:
@@ -336,6 +365,22 @@ class C20(Prop):
         if total <= 3000:
             combos = itertools.product(dom, repeat=len(free))
             v.info['exhaustive-cases'] = 1
+        elif len(free) > 60:
+            # long traces: all free positions (of one variable / of all variables) set to one value of the domain,
+            # a sample of single-position flips, random re-assignments
+            v.info['class:long-trace'] = 1
+            base = [data[k][i] for (k, i) in free]
+            combos = []
+            for d in dom:
+                combos.append(tuple(d for _ in free))
+                for k0 in names:
+                    combos.append(tuple(d if k == k0 else b0 for (k, i), b0 in zip(free, base)))
+            for j in rng.sample(range(len(free)), min(len(free), 80)):
+                for d in dom:
+                    c1 = list(base)
+                    c1[j] = d
+                    combos.append(tuple(c1))
+            combos += [tuple(rng.choice(dom) for _ in free) for _ in range(200)]
         else:
             flips = []
             for j in range(len(free)):
@@ -370,6 +415,16 @@ class C20(Prop):
 
     def known_for(self, f):
         return None
+
+    def shrinkable(self, case):
+        return not case.get('modular') and not case.get('long')
+
+    def extra(self, ctx):
+        k = 8 if ctx.tier == 'quick' else max(2, 320 // ctx.nshards)
+        for _ in range(k):
+            if ctx.out_of_time():
+                break
+            self.check(ctx, self.gen_long(ctx.rng))
 
 
 PROP = C20()
